@@ -20,7 +20,7 @@ Proof.
   - apply Forall_cons_iff in Hwf as [Hit Hwf]. rewrite enc_items_cons in *. cbv beta iota in *.
     rewrite app_length in Hf. destruct it as [|id v].
     + cbn [enc_item1 app onebyte_ids length] in *. cbn [Z.eqb]. rewrite IH by (auto; lia). reflexivity.
-    + destruct Hit as [Hid Hlen]. destruct (onebyte_hdr_decode id (zlen v) Hid Hlen) as (Hnz & Hsh & Hl).
+    + destruct Hit as (Hid & Hlen & H0). destruct (onebyte_hdr_decode id (zlen v) Hid Hlen H0) as (Hnz & Hsh & Hl).
       cbn [enc_item1 app onebyte_ids length] in *. cbv zeta. rewrite Hsh, Hl.
       replace (id * 16 + (zlen v - 1) =? 0) with false by lia. replace (id =? 15) with false by lia.
       rewrite drop_app_exact. rewrite IH by (auto; lia).
@@ -36,7 +36,7 @@ Proof.
   - apply Forall_cons_iff in Hwf as [Hit Hwf]. rewrite enc_items_cons in *. cbv beta iota in *.
     rewrite app_length in Hf. destruct it as [|i v].
     + cbn [enc_item1 app onebyte_find length] in *. cbn [Z.eqb]. rewrite IH by (auto; lia). reflexivity.
-    + destruct Hit as [Hid Hlen]. destruct (onebyte_hdr_decode i (zlen v) Hid Hlen) as (Hnz & Hsh & Hl).
+    + destruct Hit as (Hid & Hlen & H0). destruct (onebyte_hdr_decode i (zlen v) Hid Hlen H0) as (Hnz & Hsh & Hl).
       cbn [enc_item1 app onebyte_find length] in *. cbv zeta. rewrite Hsh, Hl.
       replace (i * 16 + (zlen v - 1) =? 0) with false by lia.
       unfold lookup. cbn [elems find eid].
